@@ -226,4 +226,8 @@ PROPS["C26"] = {
 }
 
 NOT_APPLICABLE = {}
-HOOK_COMMITS = []
+HOOK_COMMITS = ["c2bf0a1 verif hooks: cfg(trustfall_verif)-guarded exports of filter operators, candidate ops and type predicates"]
+
+# Properties whose check has been verified by the coordinator to pass on the unchanged tree; only these are
+# claimed in MANIFEST.json (tools/gen_manifest.py).  Entries in PROPS that are not READY are work in progress.
+READY = {"C01", "C06", "C07", "C08", "C12", "C17", "C18", "C27"}
